@@ -143,6 +143,7 @@ class Real:
         for p in range(NTAB):
             self.m.points["p%d" % p] = [list(x) for x in TABLES[p]]
         self.sc = SimulationScenario({}, "sc", self.m, "sm")
+        self.sc.constants = {}
 
     def new_lines(self):
         """protocol lines that bring the Lean model to the state of the freshly constructed real model"""
@@ -174,6 +175,10 @@ class Real:
         elif k == "scpoints":     # the scenario route: settings -> setup_points -> reset of the scenario cache
             self.sc.configure_settings({"points": {"p%d" % op[1]: [list(x) for x in TABLES[op[2]]]}})
             self.sc.setup_points()
+            self.sc.reset_cache()
+        elif k == "scconst":      # scenario constants: settings -> setup_constants (raw writes to model.equations) -> scenario cache reset
+            self.sc.constants[self.name(op[1])] = op[2]
+            self.sc.setup_constants()
             self.sc.reset_cache()
         elif k == "reset":
             self.m.reset_cache()
@@ -209,7 +214,8 @@ def op_line(op):
     if k in ("seteq", "setinit", "addeq"): return "%s %d %s" % (k, op[1], enc(op[2]))
     if k == "arrset": return "seteq %d %s" % (op[1], enc(op[2]))
     if k == "setpoints": return "setpoints %d %s" % (op[1], tab_hex(op[2]))
-    if k in ("reset", "sreset"): return "reset"
+    if k == "reset": return "reset"
+    if k == "sreset": return "sreset"
     return "eval %d %d" % (op[1], op[2])
 
 
@@ -222,7 +228,12 @@ def op_lines(op, kinds, scpts=None):
         if scpts is None:
             scpts = {}
         scpts[op[1]] = op[2]
-        return ["setpoints %d %s" % (p, tab_hex(ti)) for p, ti in scpts.items()] + ["reset"]
+        return ["setpoints %d %s" % (p, tab_hex(ti)) for p, ti in scpts.items() if not isinstance(p, tuple)] + ["sreset"]
+    if op[0] == "scconst":        # setup_constants writes ALL of the scenario's constants so far, then the scenario cache is reset
+        if scpts is None:
+            scpts = {}
+        scpts[("c", op[1])] = op[2]
+        return ["raweq %d %s" % (p[1], enc(("L", v))) for p, v in scpts.items() if isinstance(p, tuple)] + ["sreset"]
     return [op_line(op)]
 
 
@@ -232,7 +243,7 @@ def history_lines(ops, kinds):
     return [(o, op_lines(o, kinds, scpts)) for o in ops]
 
 
-EDITS = ("seteq", "setinit", "addeq", "arrset", "veceq", "setpoints", "scpoints")
+EDITS = ("seteq", "setinit", "addeq", "arrset", "veceq", "setpoints", "scpoints", "scconst")
 
 
 def settled(ops):
@@ -253,6 +264,7 @@ def op_show(op):
     if k == "arrset": return "v[..] (flat id %d) = %s" % (op[1], show(op[2]))
     if k == "veceq": return "v%d.equation = %s" % (op[1], show(op[2]))
     if k == "setpoints": return "model.points['p%d'] = %s" % (op[1], TABLES[op[2]])
+    if k == "scconst": return "scenario constant e%d = %r; setup_constants(); scenario.reset_cache()" % (op[1], op[2])
     if k == "scpoints": return "scenario points p%d = %s; setup_points(); reset_cache()" % (op[1], TABLES[op[2]])
     if k == "setinit": return "e%d.initial_value = %s" % (op[1], show(op[2]))
     if k == "addeq": return "model.add_equation('e%d', lambda t: %s)" % (op[1], show(op[2]))
@@ -263,7 +275,7 @@ def op_show(op):
 
 EDIT_KEY = {"setinit": "stale-initial-value", "addeq": "stale-add-equation", "seteq": "stale-equation-setter",
             "arrset": "stale-equation-setter", "veceq": "stale-equation-setter", "setpoints": "stale-points-after-reset",
-            "scpoints": "stale-scenario-points", "reset": "stale-after-reset", "sreset": "stale-after-reset"}
+            "scpoints": "stale-scenario-points", "scconst": "stale-scenario-constants", "reset": "stale-after-reset", "sreset": "stale-after-reset"}
 
 
 def stale_check(kinds, ops, nall):
@@ -427,6 +439,43 @@ def run_agg(chk):
     return first
 
 
+def probe_reset_clears_all_stores():
+    """every reset path clears every store the lookup consults: the dict-valued attributes of the model that
+    `Model.memoize` reads (names of its code object) are listed, filled by evaluations, and must hold no value after
+    Model.reset_cache, SimulationScenario.reset_cache and add_equation; plus the behaviour: a scenario constant changed
+    + scenario cache reset is seen by a dependent read at the same time as before."""
+    from BPTK_Py import Model
+    from BPTK_Py.scenariomanager.scenario import SimulationScenario
+    def mk():
+        m = Model(starttime=START, stoptime=START + KMAX * DT, dt=DT, name="c08s")
+        c = m.constant("c"); c.equation = 2.0
+        k = m.converter("k"); k.equation = c * 3.0
+        for t in (START, START + DT, START):
+            m.evaluate_equation("k", t)
+        return m
+    def holds_values(store):
+        return any((bool(v) if isinstance(v, (dict, list, set)) else v is not None) for v in store.values())
+    m = mk()
+    names = [a for a in Model.memoize.__code__.co_names if isinstance(getattr(m, a, None), dict) and a != "equations"]
+    report, ok = {"stores": names}, True
+    paths = {"Model.reset_cache": lambda m: m.reset_cache(),
+             "SimulationScenario.reset_cache": lambda m: SimulationScenario({}, "sc", m, "sm").reset_cache(),
+             "Model.add_equation": lambda m: m.add_equation("c", lambda t: 5.0)}
+    for pn, f in paths.items():
+        m = mk()
+        f(m)
+        left = [a for a in names if holds_values(getattr(m, a))]
+        report[pn] = "all empty" if not left else "values left in " + ",".join(left)
+        ok = ok and not left
+    m = mk()
+    sc = SimulationScenario({}, "sc", m, "sm")
+    sc.constants = {"c": 5.0}
+    sc.setup_constants(); sc.reset_cache()
+    v = m.evaluate_equation("k", START)
+    report["k(t_0) after scenario constant c=5 + scenario reset"] = v
+    return (ok and v == 15.0), report
+
+
 def probe_operands_through_memo():
     """re-define an operand and check that the function string of its user is unchanged AND the user's value follows —
     for an aggregate over a constant vector and for a plain product with a constant."""
@@ -448,20 +497,30 @@ def probe_operands_through_memo():
 
 
 # ------------------------------------------------------------------ (a3) through the bptk object (wave 7)
-BP_SETS = [["k", "s"], ["s", "k"], ["s"], ["k", "mod.c0", "r x"], ["r x", "s", "k"], ["mod.c0"]]
-BP_CONSTS = [{"mod.c0": 5.0}, {"mod.c0": 0.0, "c 1": 7.0}, {"c 1": -1.5}, {"mod.c0": 3, "c 1": 0}, {}]
-BP_NAMES = ("k", "s", "mod.c0", "c 1", "r x")
+# request lists: most of them EXCLUDE the elements that are read at a single time only (the constant `init v` and the
+# converter `i conv` that give the stocks their initial values)
+BP_SETS = [["k", "s"], ["s", "k"], ["s"], ["k", "mod.c0", "r x"], ["r x", "s", "k"], ["mod.c0"], ["s2", "s"], ["s2"], ["out", "s"],
+           ["s", "init v"], ["i conv", "s2"]]
+BP_CONSTS = [{"mod.c0": 5.0}, {"mod.c0": 0.0, "c 1": 7.0}, {"c 1": -1.5}, {"mod.c0": 3, "c 1": 0}, {}, {"init v": 50.0},
+             {"init v": 0.0, "mod.c0": 3.0}, {"init v": -4, "c 1": 2.0}]
+BP_NAMES = ("k", "s", "mod.c0", "c 1", "r x", "init v", "i conv", "s2", "out")
+BP_FRESH_EQS = ["k", "s", "mod.c0", "s2", "out", "init v", "i conv"]
 
 
 def bp_model(name="c08bp"):
-    """constants `mod.c0` = 2, `c 1` = 1; k = mod.c0*3 + c 1; stock s' = k (s0 = 1); `r x` = random(0,1) + c 1"""
+    """constants `mod.c0` = 2, `c 1` = 1, `init v` = 10; k = mod.c0*3 + c 1; `i conv` = init v*0.5 + c 1; stock s' = k (s0 = init v);
+    stock s2' = c 1 (s2_0 = i conv); out = s*mod.c0; `r x` = random(0,1) + c 1"""
     from BPTK_Py import Model
     from BPTK_Py import sd_functions as sd
     m = Model(starttime=START, stoptime=START + KMAX * DT, dt=DT, name=name)
     c0 = m.constant("mod.c0"); c0.equation = 2.0
     c1 = m.constant("c 1"); c1.equation = 1.0
     k = m.converter("k"); k.equation = c0 * 3.0 + c1
-    s = m.stock("s"); s.initial_value = 1.0; s.equation = k
+    iv = m.constant("init v"); iv.equation = 10.0
+    ic = m.converter("i conv"); ic.equation = iv * 0.5 + c1
+    s = m.stock("s"); s.initial_value = iv; s.equation = k              # initial value = a constant (read at the start time only)
+    s2 = m.stock("s2"); s2.initial_value = ic; s2.equation = c1          # initial value = a converter over that constant
+    out = m.converter("out"); out.equation = s * c0
     r = m.converter("r x"); r.equation = sd.random(0, 1) + c1
     return m
 
@@ -485,7 +544,7 @@ def bp_fresh(consts):
         b = BPTK_Py.bptk()
         try:
             b.register_model(bp_model(), scenario_manager="smBp", scenario={"sc": {"constants": dict(consts)}})
-            df = b.run_scenarios(scenario_managers=["smBp"], scenarios=["sc"], equations=["k", "s", "mod.c0"], series_names={})
+            df = b.run_scenarios(scenario_managers=["smBp"], scenarios=["sc"], equations=list(BP_FRESH_EQS), series_names={})
             _bp_fresh[key] = frame_bits(df)
         finally:
             b.destroy()
@@ -543,6 +602,20 @@ def bp_run(script, pre_evaluate):
                     b.run_step()
                 b.end_session()           # end_session resets the scenario cache
                 seen = {}
+            elif op[0] == "sessionconst":     # constants given as session settings (begin_session configures the scenario and resets its cache)
+                b.begin_session(scenarios=["sc"], scenario_managers=["smBp"], equations=["s", "s2"],
+                                settings={"smBp": {"sc": {"constants": dict(op[1])}}})
+                consts.update(op[1])
+                fcols, _ = bp_fresh(consts)
+                for j in range(op[2]):
+                    r_ = b.run_step()
+                    for nm in ("s", "s2"):
+                        v = list(r_["smBp"]["sc"][nm].values())[0]
+                        if fbits(v) != fcols[nm][j]:
+                            return {"step": i, "what": "session step %d: %s differs from a freshly set up bptk with constants %s" % (j, nm, consts),
+                                    "observed": v, "fresh": from_fbits(fcols[nm][j])}
+                b.end_session()
+                seen = {}
         return None
     finally:
         b.destroy()
@@ -552,7 +625,8 @@ def bp_show(op):
     return {"run": lambda: "run_scenarios(equations=%s)" % (list(op[1]),),
             "consts": lambda: "scenario.constants.update(%s); reset_scenario_cache()" % (op[1],),
             "reset": lambda: "reset_scenario_cache()", "mutate": lambda: "returned_frame.iloc[:, :] = 999.0",
-            "session": lambda: "session of %d steps" % op[1]}[op[0]]()
+            "session": lambda: "session of %d steps" % op[1],
+            "sessionconst": lambda: "begin_session(settings: constants %s); %d steps; end_session()" % (op[1], op[2])}[op[0]]()
 
 
 def bp_cases(chk):
@@ -562,6 +636,11 @@ def bp_cases(chk):
         [("run", ["s"]), ("consts", {"mod.c0": 0.0, "c 1": 7.0}), ("run", ["s", "k"]), ("consts", {"mod.c0": 3, "c 1": 0}), ("run", ["k", "s"]), ("run", ["s"])],
         [("run", ["k"]), ("session", 2), ("run", ["k", "s"]), ("consts", {"c 1": -1.5}), ("session", 3), ("run", ["s", "k"])],
         [("consts", {"mod.c0": 0.0}), ("run", ["k", "s", "mod.c0"]), ("reset",), ("run", ["mod.c0", "s"])],
+        # the initial-value elements are never requested; their constants change through the scenario
+        [("run", ["out", "s"]), ("run", ["out", "s"]), ("consts", {"mod.c0": 3.0, "init v": 50.0}), ("run", ["out", "s"]), ("run", ["s2"])],
+        [("run", ["s2", "s"]), ("consts", {"init v": 0.0}), ("run", ["s2"]), ("run", ["s"]), ("consts", {"init v": -4, "c 1": 2.0}), ("run", ["s2", "s"])],
+        [("run", ["s"]), ("sessionconst", {"init v": 50.0}, 2), ("run", ["s", "s2"]), ("sessionconst", {"init v": 7.0, "c 1": 0.0}, 3), ("run", ["s2"])],
+        [("session", 1), ("consts", {"init v": 50.0}), ("session", 1), ("run", ["s"]), ("session", 2), ("run", ["s", "out"])],
     ]
     out = [(f, pre) for f in fixed for pre in (False, True)]
     rng = chk.rng.fork("c08-bptk")
@@ -572,7 +651,7 @@ def bp_cases(chk):
             if r < 5: sc.append(("run", rng.choice(BP_SETS)))
             elif r < 7: sc.append(("consts", rng.choice(BP_CONSTS)))
             elif r < 8: sc.append(("reset",))
-            elif r < 9: sc.append(("mutate",))
+            elif r < 9: sc.append(("mutate",) if rng.chance(1, 2) else ("sessionconst", rng.choice(BP_CONSTS), rng.range(1, 3)))
             else: sc.append(("session", rng.range(1, 3)))
         sc.append(("run", rng.choice(BP_SETS)))
         out.append((sc, rng.chance(1, 2)))
@@ -649,18 +728,19 @@ def probe_first_store():
 def gen_lean(f):
     b = lambda x: "true" if x else "false"
     cfg = (f"def cfg : Cfg := {{ initialValueResetsCache := {b(f['init'])}, addEquationResetsCache := {b(f['add'])}, "
-           f"memoizeFirstStoreWins := {b(f['first'])}, operandsThroughMemo := {b(f['operands'])} }}\n")
-    if f["init"] and f["add"] and f["first"] and f["operands"]:
+           f"memoizeFirstStoreWins := {b(f['first'])}, operandsThroughMemo := {b(f['operands'])}, resetClearsAllStores := {b(f['stores'])} }}\n")
+    if f["init"] and f["add"] and f["first"] and f["operands"] and f["stores"]:
         body = "theorem holds : C08_full cfg := C08_full_of_good cfg (by decide)\n#print axioms holds\n"
     else:
         thm = ("C08_witness_stale_init_full" if not f["init"] else
                "C08_witness_stale_add_full" if not f["add"] else
-               "C08_witness_race_full" if not f["first"] else "C08_witness_baked_full")
+               "C08_witness_race_full" if not f["first"] else
+               "C08_witness_baked_full" if not f["operands"] else "C08_witness_second_store_full")
         body = (f"theorem violated : ¬ C08_full cfg := {thm} cfg (by decide)\n#print axioms violated\n"
                 "#print axioms C08_partial_evals\n#print axioms C08_deterministic_threads\n")
     # the `memoize` of XMILE-generated model classes (no edit API: only the store rule is a fact of its own)
     body += (f"def cfgX : Cfg := {{ initialValueResetsCache := true, addEquationResetsCache := true, "
-             f"memoizeFirstStoreWins := {b(f['xfirst'])}, operandsThroughMemo := true }}\n")
+             f"memoizeFirstStoreWins := {b(f['xfirst'])}, operandsThroughMemo := true, resetClearsAllStores := true }}\n")
     if f["xfirst"]:
         body += "theorem holdsX : C08_conc cfgX := C08_stochastic_threads cfgX (by decide)\n#print axioms holdsX\n"
     else:
@@ -703,6 +783,9 @@ def gen_edit(rng, kinds, extra):
     n = rng.below(len(kinds))
     r = rng.below(12)
     if r >= 10:
+        cs = [i for i, k in enumerate(kinds) if k == "c"]
+        if cs and rng.chance(1, 2):
+            return ("scconst", rng.choice(cs), pick_val(rng))
         return ("scpoints" if rng.chance(1, 2) else "setpoints", rng.below(NTAB), rng.below(len(TABLES)))
     if r < 2 and "s" in kinds:
         s = rng.choice([i for i, k in enumerate(kinds) if k == "s"])
@@ -763,7 +846,8 @@ def init_transition_cases():
     for old in INIT_VALUES:
         for new in INIT_VALUES:
             for mid in ([], [("eval", 3, 2)], [("eval", 3, 2), ("eval", 2, 0), ("eval", 5, 1)]):
-                for tail in ([], [("eval", 3, 2), ("setinit", 2, old), ("eval", 3, 1)]):
+                for tail in ([], [("eval", 3, 2), ("setinit", 2, old), ("eval", 3, 1)],
+                             [("eval", 2, 0), ("scconst", 0, 9.0), ("scconst", 4, 0.5), ("eval", 2, 0), ("eval", 3, 2)]):
                     out.append((INIT_KINDS, INIT_PREFIX + [("setinit", 2, old)] + mid + [("setinit", 2, new)] + tail, 6))
     return out
 
@@ -823,7 +907,7 @@ def fixed_alphabet():
     return [("seteq", 0, ("L", 3.0)), ("seteq", 1, ("B", 2, ("R", 0), ("L", 0.5))), ("seteq", 2, ("B", 0, ("R", 1), ("R", 3))),
             ("setinit", 2, ("L", 10.0)), ("setinit", 2, ("R", 0)), ("seteq", 3, ("B", 0, ("R", 2), ("R", 0))),
             ("addeq", 0, ("L", 0.0)), ("addeq", 1, ("B", 2, ("R", 0), ("L", 2.0))), ("reset",), ("sreset",),
-            ("eval", 3, 2), ("eval", 2, 1), ("eval", 1, 0)]
+            ("scconst", 0, 5.0), ("eval", 3, 2), ("eval", 2, 1), ("eval", 1, 0)]
 
 
 FIX_PREFIX = [("seteq", 0, ("L", 2.0)), ("seteq", 1, ("B", 2, ("R", 0), ("L", 1.5))), ("seteq", 2, ("R", 1)),
@@ -851,7 +935,7 @@ def run_seq(chk, facts):
     cases, n_exh, L = seq_cases(chk)
     # the operands bit is a fact about the term generator of aggregates, which are not part of the driver's expression
     # language (they are checked by the aggregate family against freshly built models): the streams run the model with 1
-    req = ["cfg %d %d %d 1" % (facts["init"], facts["add"], facts["first"])]
+    req = ["cfg %d %d %d 1 1" % (facts["init"], facts["add"], facts["first"])]
     real = ["ok"]
     kinds_hist = {}
     stale = []
@@ -1240,7 +1324,7 @@ def conc_expected(obs):
 
 
 def canon_handouts(hs):
-    return sorted("%s>%d.%d=%s" % ("-" if c is None else "%d.%d" % c, k[0], k[1], v) for _, c, k, v in hs)
+    return sorted("%s>%s=%s" % ("-" if c is None else "%d.%d" % c, "?" if k is None else "%d.%d" % k, v) for _, c, k, v in hs)
 
 
 def parse_conc_reply(line):
@@ -1294,7 +1378,7 @@ def run_conc(chk, facts, scratch=None):
             scheds = scheds[:1 + E * len(reqs)] + scheds[1 + E * len(reqs)::3]
             full2 = False
         dist[name] = {"line_events": E, "schedules": len(scheds), "all_two_preemptions": full2}
-        header = (["cfg %d %d %d 1" % (facts["init"], facts["add"], facts["xfirst" if xm else "first"])] + Real(kinds).new_lines() +
+        header = (["cfg %d %d %d 1 1" % (facts["init"], facts["add"], facts["xfirst" if xm else "first"])] + Real(kinds).new_lines() +
                   [op_line(o) for o in defs])
         req += header; exp += ["ok"] * len(header); meta += [None] * len(header)
         seen = set()
@@ -1352,6 +1436,7 @@ def _run(chk, scratch):
     sys.setrecursionlimit(5000)
     facts = {"init": probe_initial_value(), "add": probe_add_equation(), "first": probe_first_store(),
              "xfirst": probe_first_store_x(scratch), "operands": probe_operands_through_memo()}
+    facts["stores"], chk.notes["stores_consulted_by_memoize"] = probe_reset_clears_all_stores()
     chk.notes["cfg"] = facts
     ok, why = chk.prove(gen_lean(facts))
     chk.cov["trusted_base"] = [
@@ -1515,6 +1600,7 @@ def replay(path):
         return 1 if bad else 0
     if r.get("kind") == "bptk":
         script = [(o[0], list(o[1])) if o[0] == "run" else tuple(o) for o in r["script"]]
+        script = [(o[0], dict(o[1])) + tuple(o[2:]) if o[0] in ("consts", "sessionconst") else o for o in script]
         print("script:", [bp_show(o) for o in script])
         bad = bp_run(script, r.get("pre_evaluate", False))
         print("violation on the current tree:", bad)
